@@ -1,4 +1,4 @@
-import Mhd.Model.AuthInfo
+import Mhd.Model.AuthCache
 import Driver.Common
 /-
   Model driver of engine `auth` (C14).  One output line per input line.
@@ -14,6 +14,9 @@ import Driver.Common
     basich {<kind> <namehex> <valuehex>}* → basic line, connection with these request headers (fabricated)
     infoh {<kind> <namehex> <valuehex>}*  → info line, same
     connm <valuehex> <valuehex>*          → <basic line> ; <info line>     (real request with several Authorization headers)
+    connq <early 0|1> <request>+          → per request "[u=<basic> ; <info>] [h1=…] [h2=…] [h3=…]" joined by " / ": pipelined POST requests on one
+                                            real connection; <request> = comma-separated Authorization values (hex) or "-"; u = answers inside the
+                                            URI-log callback (early=1), h1..h3 = answers in the three handler calls; every query is made twice
     layout <valuehex>                     → lay none | lay alloc=<n> user=<off:len|-> uhh=… uhb=… opaque=… realm=… | un3 none | un3 alloc=… user=… uhh=… uhb=…
                                             (offsets relative to the first byte behind the returned structure)
 -/
@@ -90,8 +93,8 @@ def layLine (hs : List Hdr) : String :=
   | .reject => "lay none"
   | .fault s => s!"lay fault {showSite s}"
 
-def infoLineH (hs : List Hdr) : String :=
-  match digestApiH hs with
+def infoLineOf (r : Res (Option (IRes DigestInfo × IRes (UnameInfo × Nat)))) : String :=
+  match r with
   | .ok none => "info none"
   | .ok (some (i, u)) =>
     let a := match i with
@@ -106,7 +109,48 @@ def infoLineH (hs : List Hdr) : String :=
   | .reject => "info none"
   | .fault s => s!"info fault {showSite s}"
 
+def infoLineH (hs : List Hdr) : String := infoLineOf (digestApiH hs)
+
 def infoLine (v : Bytes) : String := infoLineH [authHdr v]
+
+/-- one round of queries (all three API functions, each twice) through the per-request cache:
+    "<basic line> ; <info line>" of the first answers (REPEAT-DIFF if a repetition answers differently) -/
+def queryRound (st : Bool) (hs : List Hdr) (c : RqAuth) : String × RqAuth :=
+  let b1 := basicQ st hs c
+  let b2 := basicQ st hs b1.2
+  let bl := fun (a : Option (Bytes × Option Bytes)) => match a with
+    | none => "basic none"
+    | some (u, p) => s!"basic u={hexOfBytes u} p={optHex p}"
+  let comb : RqAuth → String × RqAuth := fun c =>
+    match infoQ st hs c with
+    | .ok (i, c1) =>
+      match unameQ st hs c1 with
+      | .ok (u, c2) =>
+        (infoLineOf (.ok (match i, u with | some i, some u => some (i, u) | _, _ => none)), c2)
+      | .reject => ("info none", c1)
+      | .fault e => (s!"info fault {showSite e}", c1)
+    | .reject => ("info none", c)
+    | .fault e => (s!"info fault {showSite e}", c)
+  let i1 := comb b2.2
+  let i2 := comb i1.2
+  let rep := if bl b1.1 == bl b2.1 && i1.1 == i2.1 then "" else "REPEAT-DIFF "
+  (rep ++ bl b1.1 ++ " ; " ++ i1.1, i2.2)
+
+/-- one request: optional early round (URI-log callback), then three handler calls; fresh cache -/
+def requestLine (early : Bool) (hs : List Hdr) : String :=
+  let c0 := RqAuth.init
+  let (su, c1) := if early then (let r := queryRound false hs c0; (s!"[u={r.1}] ", r.2)) else ("", c0)
+  let r1 := queryRound true hs c1
+  let r2 := queryRound true hs r1.2
+  let r3 := queryRound true hs r2.2
+  s!"{su}[h1={r1.1}] [h2={r2.1}] [h3={r3.1}]"
+
+
+def allHexList : List String → Option (List Bytes)
+  | [] => some []
+  | h :: t => match bytesOfHex h, allHexList t with
+    | some b, some r => some (b :: r)
+    | _, _ => none
 
 def allHex : List String → Option (List Bytes)
   | [] => some []
@@ -119,6 +163,15 @@ def connOk (v : Bytes) : Bool :=
   v.all (fun c => c ≠ 0 && c ≠ 13 && c ≠ 10) &&
     (match v.head? with | some c => ! isWs c | none => false) &&
     (match v.getLast? with | some c => ! isWs c | none => false)
+
+def parseReq (w : String) : Option (List Bytes) :=
+  if w == "-" then some [] else allHexList (w.splitOn ",")
+
+def parseReqs : List String → Option (List (List Bytes))
+  | [] => some []
+  | w :: t => match parseReq w, parseReqs t with
+    | some a, some b => some (a :: b)
+    | _, _ => none
 
 def stepLine (s : Unit) (ws : List String) : Unit × List String :=
   match ws with
@@ -177,6 +230,13 @@ def stepLine (s : Unit) (ws : List String) : Unit × List String :=
     | some vs =>
       if vs.all connOk then (s, [basicLineH (vs.map authHdr) ++ " ; " ++ infoLineH (vs.map authHdr)]) else (s, ["bad-op"])
     | none => (s, ["bad-op"])
+  | "connq" :: e :: r0 :: rest =>
+    match e, parseReqs (r0 :: rest) with
+    | "0", some rs | "1", some rs =>
+      if rs.all (fun vs => vs.all connOk) then
+        (s, [" / ".intercalate (rs.map fun vs => requestLine (e == "1") (vs.map authHdr))])
+      else (s, ["bad-op"])
+    | _, _ => (s, ["bad-op"])
   | ["layout", h] =>
     match bytesOfHex h with
     | some b => (s, [layLine [authHdr b]])
